@@ -49,4 +49,17 @@ package ovsdb
 //@ pure
 //@ func (DatabaseSchema).Table
 //@ modifies nothing
-//@ ensures (tableName in schema.Tables) ==> result != nil
+//@ ensures (tableName in schema.Tables) ==> (result != nil && fresh(result) && *result == schema.Tables[tableName])
+//@ ensures !(tableName in schema.Tables) ==> result == nil
+
+// IsRoot (C04): a table is in the root set iff it is marked root, or no table
+// of the schema is (RFC 7047 compatibility rule).
+//@ pred NoRootTable(schema DatabaseSchema) := forall t: string :: (t in schema.Tables) ==> !schema.Tables[t].IsRoot
+//@ func (DatabaseSchema).IsRoot
+//@ requires schema.allTablesRoot != nil ==> *schema.allTablesRoot == NoRootTable(schema)
+//@ modifies nothing
+//@ ensures (tableName in schema.Tables) == (err == nil)
+//@ ensures_ok result0 == (schema.Tables[tableName].IsRoot || NoRootTable(schema))
+//@ loop 1 invariant allTablesRoot
+//@ loop 1 invariant forall t: string :: visited(t) && (t in schema.Tables) ==> !schema.Tables[t].IsRoot
+
